@@ -454,8 +454,6 @@ def call_lua_sandbox(
                                 sortid="luaexec/477/20230710",
                             )
                             k = 1000
-                        if num <= k:
-                            num = k + 1
                 else:
                     # unnamed parameter
                     k = num
